@@ -1,6 +1,7 @@
 """./check configuration for C08 (hostsfile.Parse and DefaultStorage)."""
 
 PROP = dict(
+    technique='Lean fold over scanner lines (exact delivery/reporting), association-list refinement of DefaultStorage to first-seen-order specs; differential tie under five reader fragmentations',
     module="GolibsVerif.Theorems.C08", namespace="GolibsVerif.C08",
     rule="(a) whole hosts files (0..12 lines from the C07 grammar, LF / CRLF / missing final newline / lone CR, lines that force the "
          "scanner buffer to grow) run through the real Parse with a plain Set and with a HandleSet, named and unnamed readers, under five "
